@@ -100,6 +100,7 @@ def boot():
     import django_components.util.loader  # noqa: F401
     import djc_core_html_parser  # noqa: F401
     import sim.simcache  # noqa: F401
+    import sim.generated  # noqa: F401
     import sim.simtags  # noqa: F401
     from django.template import engines
 
